@@ -401,12 +401,17 @@ func replayCodeRec(args []string) error {
 			c1, c2 := net.Pipe()
 			rich := &richWriter{plainWriter: plainWriter{hdr: http.Header{}}, conn: c1}
 			plain := &plainWriter{hdr: http.Header{}}
-			under := []http.ResponseWriter{rich, plain}
+			// writer 3: a foreign Unwrap-only wrapper around another rich writer
+			rich3 := &richWriter{plainWriter: plainWriter{hdr: http.Header{}}, conn: c1}
+			under := []http.ResponseWriter{rich, plain, unwrapWriter{fwdWriter{rich3}}}
 			callsOf := func(b int) []call {
-				if b == 0 {
+				switch b {
+				case 0:
 					return rich.calls
+				case 1:
+					return plain.calls
 				}
-				return plain.calls
+				return rich3.calls
 			}
 			rets := []string{}
 			var w *httputil.CodeRecorderResponseWriter
@@ -434,7 +439,7 @@ func replayCodeRec(args []string) error {
 					case "reset":
 						w.Reset(under[o.C-1])
 					case "hj":
-						rich.mode = o.C
+						rich.mode, rich3.mode = o.C, o.C
 						var conn net.Conn
 						var err error
 						if viaReset { // through the wrapper's own method / through a ResponseController
